@@ -67,6 +67,10 @@ def check_records(ctx, recs):
             if unb in flat:
                 case["predicates"].add("coord_stamp_on_flattened_rank")
                 case["signature"] = "unbound-flattened-rank-variable"
+            tags = set((r.get("case") or {}).get("tags", []))
+            if r["mode"] == "metrics" and "eager_root_after_lookup_rank" in tags and ".trace(" in a["why"]:
+                case["predicates"].add("eager_trace_before_lookup")
+                case["signature"] = "unbound-fiber-in-eager-trace"
             if r["mode"] == "metrics" and "_pos" in a["why"]:
                 case["predicates"].add("metrics_mode_interval_position")
                 case["signature"] = "unbound-position-variable"
